@@ -14,13 +14,18 @@ from sx.arr import SArr
 from sx.rt import And
 
 
-def _frames(ctx, names, shape, labels):
+def _frames(ctx, names, shape, labels, dtype=np.int64, label_set=None):
+    from sx.rt import Or
+
     ctx.allow_realise = True
     out = []
     for nm in names:
-        a = SArr.fresh(nm, shape, np.int64)
+        a = SArr.fresh(nm, shape, dtype)
         for x in a.c.flat:
-            ctx.add(And(x >= 0, x <= labels))
+            if label_set is not None:
+                ctx.add(Or([x == v for v in label_set]))  # e.g. large labels of a narrow integer dtype
+            else:
+                ctx.add(And(x >= 0, x <= labels))
         out.append(a)
     arrs = [np.asarray(a) for a in out]  # realisation: forks over every cell value
     return arrs
@@ -57,7 +62,9 @@ def _judge_ious(which, f1, f2):
 
 
 def ious_harness(ctx, cfg):
-    f1, f2 = _frames(ctx, ("a", "b"), tuple(cfg["shape"]), cfg["labels"])
+    dt = np.dtype(cfg.get("dtype", "int64"))
+    f1, f2 = _frames(ctx, ("a", "b"), tuple(cfg["shape"]), cfg.get("labels"), dt, cfg.get("label_set"))
+    ctx.input("dtype", dt.name)
     ctx.input("which", cfg["which"])
     ctx.input("f1", f1.tolist())
     ctx.input("f2", f2.tolist())
@@ -69,7 +76,8 @@ def ious_harness(ctx, cfg):
 
 def ious_replay(f):
     i = f["inputs"]
-    ok, detail = _judge_ious(i["which"], np.array(i["f1"], dtype=np.int64), np.array(i["f2"], dtype=np.int64))
+    dt = np.dtype(i.get("dtype", "int64"))
+    ok, detail = _judge_ious(i["which"], np.array(i["f1"], dtype=dt), np.array(i["f2"], dtype=dt))
     return (not ok), detail
 
 
